@@ -685,3 +685,215 @@ class IntegralOracle:
                     out.append("C12:gain-dependent:" + sig)
                     break
         return out
+
+
+# ------------------------------------------------------------------------------------ C09
+def naive_dft(x, N, inverse=False):
+    x = np.asarray(x, dtype=complex)
+    n = len(x)
+    k = np.arange(N).reshape(-1, 1)
+    j = np.arange(n).reshape(1, -1)
+    if inverse:
+        # numpy.ifft(x, n=N): input truncated/zero-padded to N
+        xx = np.zeros(N, dtype=complex); xx[: min(n, N)] = x[: min(n, N)]
+        jj = np.arange(N).reshape(1, -1)
+        return (np.exp(2j * np.pi * k * jj / N) @ xx) / N
+    return np.exp(-2j * np.pi * k * j / N) @ x
+
+
+class FourierOracle:
+    """C09: exact DFT along dim only, calibrated axis (tone peaks where the axis says), ppm, inverse, linearity, renaming"""
+
+    def pre(self, op, st):
+        if op["op"] != "proc" or op["f"] not in ("fourier_transform", "inverse_fourier_transform"):
+            return None
+        return st.objs[op["obj"]].copy() if op["obj"] in st.objs else None
+
+    def post(self, op, st, line, pre):
+        if pre is None or line["outcome"] != "ok":
+            return []
+        f, kw = op["f"], op["kw"]
+        dim, zff, shift, conv = kw["dim"], max(1, kw["zff"]), bool(kw.get("shift")), bool(kw.get("convert"))
+        n = len(pre.coords[dim]); N = zff * n
+        par = "odd" if N % 2 else "even"
+        sig = "%s:%s:%s" % (op_sig(op), "shift" if shift else "noshift", par)
+        res = st.objs[op["out"]]
+        k = list(pre.dims).index(dim)
+        out = []
+        close = lambda a, b: np.asarray(a).shape == np.asarray(b).shape and np.allclose(a, b, rtol=1e-9, atol=1e-9)
+        src = np.moveaxis(np.asarray(pre.values), k, 0).reshape(n, -1)
+        got = np.moveaxis(np.asarray(res.values), k, 0).reshape(N, -1)
+        c = np.asarray(pre.coords[dim], dtype=float)
+        if f == "fourier_transform":
+            want = np.stack([naive_dft(src[:, j], N) for j in range(src.shape[1])], axis=1)
+            if shift:
+                want = np.roll(want, N // 2, axis=0)
+            if not close(got, want):
+                out.append("C09:values-not-dft:" + sig)
+            # renaming
+            import re
+            wantname = ("f" + dim[1:]) if re.fullmatch("t[0-9]*", dim) else dim
+            if res.dims[k] != wantname or [d for i, d in enumerate(res.dims) if i != k] != [d for i, d in enumerate(pre.dims) if i != k]:
+                out.append("C09:rename:" + sig)
+            # axis: N points spaced 1/(N dt); the coordinate of the zero-frequency bin is 0
+            dt = c[1] - c[0]
+            ax = np.asarray(res.coords[res.dims[k]], dtype=float)
+            scale = 1.0
+            if conv and "frequency" in pre.dnplab_attrs:
+                scale = pre.dnplab_attrs["frequency"] / 1e6
+            axhz = ax * scale
+            if len(ax) != N or not np.allclose(np.diff(axhz), 1.0 / (N * dt), rtol=1e-9):
+                out.append("C09:axis-spacing:" + sig)
+            else:
+                # the coordinate of every point is the frequency of the complex exponential that peaks there
+                tone_bins = sorted(set([0, 1, N // 2, N - 1, (N - 1) // 2]))
+                t = np.arange(n) * dt
+                for b in tone_bins:
+                    fb = axhz[b]
+                    y = naive_dft(np.exp(2j * np.pi * fb * t), N)
+                    if shift:
+                        y = np.roll(y, N // 2)
+                    pk = int(np.argmax(np.abs(y)))
+                    if pk != b:
+                        out.append("C09:axis-not-calibrated:" + sig)
+                        break
+            # linearity
+            y2 = pre.copy(); y2.values = np.asarray(pre.values) * (1 + 2j) + 3
+            try:
+                r2 = st._proc(f, y2, kw)
+                ones = pre.copy(); ones.values = np.ones_like(np.asarray(pre.values), dtype=complex)
+                r1 = st._proc(f, ones, kw)
+                if not close(r2.values, (1 + 2j) * np.asarray(res.values) + 3 * np.asarray(r1.values)):
+                    out.append("C09:not-linear:" + sig)
+            except Exception:
+                out.append("C09:raises-on-combination:" + sig)
+            # inverse with matching options restores values and time axis (zero_fill_factor 1)
+            if zff == 1:
+                try:
+                    r = res.copy()
+                    if conv and "frequency" in pre.dnplab_attrs:
+                        r.attrs["nmr_frequency"] = pre.dnplab_attrs["frequency"]
+                    back = dnp.inverse_fourier_transform(r, res.dims[k], 1, shift, conv and "frequency" in pre.dnplab_attrs)
+                    if not close(back.values, np.asarray(pre.values).astype(complex)):
+                        out.append("C09:roundtrip-values:" + sig)
+                    wname = ("t" + res.dims[k][1:]) if re.fullmatch("f[0-9]*", res.dims[k]) else res.dims[k]
+                    bax = np.asarray(back.coords[back.dims[k]], dtype=float)
+                    if back.dims[k] != wname or not np.allclose(bax, c - c[0], rtol=1e-9, atol=1e-12):
+                        out.append("C09:roundtrip-axis:" + sig)
+                except Exception:
+                    out.append("C09:roundtrip-raises:" + sig)
+        else:
+            inp = np.roll(src, -(n // 2), axis=0) if shift else src
+            want = np.stack([naive_dft(inp[:, j], N, inverse=True) for j in range(src.shape[1])], axis=1)
+            if not close(got, want):
+                out.append("C09:values-not-idft:" + sig)
+        return out
+
+
+# ------------------------------------------------------------------------------------ C13
+class PhaseOracle:
+    """C13: closed-form factor, magnitudes kept, additivity, inverse, 360-periodicity, phase_cycle factor"""
+
+    def pre(self, op, st):
+        if op["op"] != "proc" or op["f"] not in ("phase", "phase_cycle"):
+            return None
+        return st.objs[op["obj"]].copy() if op["obj"] in st.objs else None
+
+    def post(self, op, st, line, pre):
+        if pre is None or line["outcome"] != "ok":
+            return []
+        from implstore import to_float
+        f, kw = op["f"], op["kw"]
+        res = st.objs[op["out"]]
+        dim = kw["dim"]
+        k = list(pre.dims).index(dim)
+        n = len(pre.coords[dim])
+        src = np.moveaxis(np.asarray(pre.values), k, 0).reshape(n, -1)
+        got = np.moveaxis(np.asarray(res.values), k, 0).reshape(n, -1)
+        close = lambda a, b: np.asarray(a).shape == np.asarray(b).shape and np.allclose(a, b, rtol=1e-9, atol=1e-9)
+        out = []
+        if f == "phase_cycle":
+            rp = np.array(kw["rp"])
+            fac = np.exp(-1j * np.pi / 2 * rp[np.arange(n) % len(rp)]).reshape(-1, 1)
+            return [] if close(got, src * fac) else ["C13:phase-cycle-factor:" + op_sig(op)]
+        m = src.shape[1]
+        p0 = np.array([to_float(x) for x in kw["p0"]]) if isinstance(kw["p0"], list) else np.full(m, to_float(kw["p0"]))
+        p1 = np.array([to_float(x) for x in kw["p1"]]) if isinstance(kw["p1"], list) else np.full(m, to_float(kw["p1"]))
+        sgn = "p0%s:p1%s" % ("-" if (p0 < 0).any() else "+", "-" if (p1 < 0).any() else "+")
+        sig = op_sig(op) + ":" + sgn + (":array" if isinstance(kw["p0"], list) or isinstance(kw["p1"], list) else "")
+        fac = np.exp(1j * np.deg2rad(p0.reshape(1, -1) + p1.reshape(1, -1) * np.arange(n).reshape(-1, 1) / n))
+        if not close(got, src * fac):
+            out.append("C13:closed-form:" + sig)
+        if not np.allclose(np.abs(got), np.abs(src), rtol=1e-9, atol=1e-12):
+            out.append("C13:magnitude:" + sig)
+        arr = isinstance(kw["p0"], list) or isinstance(kw["p1"], list)
+        P0 = p0 if arr else float(p0[0]); P1 = p1 if arr else float(p1[0])
+        try:
+            back = dnp.phase(res, dim, -P0, -P1)
+            if not close(back.values, np.asarray(pre.values).astype(complex)):
+                out.append("C13:inverse:" + sig)
+            if not arr:
+                a0, a1 = P0 / 3.0, P1 / 3.0
+                two = dnp.phase(dnp.phase(pre, dim, a0, a1), dim, P0 - a0, P1 - a1)
+                if not close(two.values, res.values):
+                    out.append("C13:additivity:" + sig)
+                per = dnp.phase(pre, dim, P0 + 360.0 if P0 <= 0 else P0 - 360.0, P1)
+                if not close(per.values, res.values):
+                    out.append("C13:p0-periodicity:" + sig)
+        except Exception:
+            out.append("C13:law-raises:" + sig)
+        return out
+
+
+# ------------------------------------------------------------------------------------ C15
+DECAYING = ("exponential", "gaussian", "hann", "hamming", "sin2")
+
+
+class ApodOracle:
+    """C15: apodize = data * w(coords[dim]) with one real window for every trace; decaying kinds start
+    at 1 and never increase; exponential closed form; unknown kinds rejected"""
+
+    def pre(self, op, st):
+        if op["op"] != "proc" or op["f"] != "apodize":
+            return None
+        return st.objs[op["obj"]].copy() if op["obj"] in st.objs else None
+
+    def post(self, op, st, line, pre):
+        if pre is None:
+            return []
+        from implstore import to_float
+        kw = op["kw"]
+        kind, dim = kw["kind"], kw["dim"]
+        sig = op_sig(op) + ":" + kind
+        from dnplab.processing import apodization
+        if str(kind).lower() not in apodization._windows:
+            return [] if line["outcome"].startswith("raise") else ["C15:unknown-kind-accepted:" + sig]
+        if line["outcome"] != "ok":
+            return []
+        res = st.objs[op["out"]]
+        k = list(pre.dims).index(dim)
+        n = len(pre.coords[dim])
+        src = np.moveaxis(np.asarray(pre.values), k, 0).reshape(n, -1)
+        got = np.moveaxis(np.asarray(res.values), k, 0).reshape(n, -1)
+        out = []
+        if (src == 0).any():
+            return []
+        ratio = got / src
+        w = ratio[:, 0]
+        if not np.allclose(ratio, w.reshape(-1, 1), rtol=1e-9, atol=1e-12) or not np.allclose(np.imag(w), 0, atol=1e-12):
+            out.append("C15:window-depends-on-trace:" + sig)
+        w = np.real(w)
+        c = np.asarray(pre.coords[dim], dtype=float)
+        gauss_ok = kind != "gaussian" or abs(c[0]) < 1e-15
+        if kind in DECAYING and gauss_ok and np.all(np.diff(c) > 0):
+            lwpos = all(to_float(v) >= 0 for v in kw.get("kwargs", {}).values())
+            if lwpos:
+                if abs(w[0] - 1.0) > 1e-12:
+                    out.append("C15:first-point-not-one:" + sig)
+                if np.any(np.diff(w) > 1e-12):
+                    out.append("C15:window-increases:" + sig)
+        if kind == "exponential":
+            lw = to_float(kw["kwargs"]["lw"])
+            if not np.allclose(w, np.exp(-np.pi * lw * (c - c[0])), rtol=1e-9, atol=1e-300):
+                out.append("C15:exponential-closed-form:" + sig)
+        return out
